@@ -1,4 +1,5 @@
 import DoraModel.Term.InvStep2
+import DoraModel.Term.MarkLemmas2
 /-!
 # C12 — Parallel collection phases finish exactly when all work is done
 
@@ -254,3 +255,225 @@ example : ∃ s, Reach 2 0 [0, 1] s ∧ ∃ (t : Nat) (pc : PC), s.pcs[t]? = som
   ⟨_, Reach.init, 0, PC.work, by decide, by decide⟩
 
 end Dora.Term.C12
+
+/-!
+# C12, last sentence — "Every reachable object is processed exactly once regardless of how work is stolen
+between workers."
+
+Model: `DoraModel/Term/Mark.lean` (`marking.rs` statement by statement: root loop, `pop` = local / own deque /
+injector batch / steal batch from a victim, `trace` with the atomic `try_mark`, push to local segment or
+deque, `defensive_push`), any object graph, any number of workers, every interleaving, arbitrary stolen
+batches.  All statements are about every state reachable through events the acceptor `Mark.accept` allows.
+-/
+namespace Dora.Mark.C12
+open Dora.Mark
+
+variable {h : Heap} {n : Nat} {s : State}
+
+/-- "processed … once" (upper half): in every reachable state the log of processed objects has no
+duplicates — no object is handed to a worker by `pop()` twice, whoever popped or stole it. -/
+theorem each_object_processed_at_most_once (hr : Reach h n s) : s.log.Nodup := by
+  rw [List.nodup_iff_count]
+  intro z
+  have h1 := hr.inv.place z
+  have h2 := ind_le (z ∈ s.marked)
+  omega
+
+/-- "regardless of how work is stolen": in every reachable state every object is in exactly one place.
+Either its mark bit is clear and it is in no pool slot and not processed; or it was marked before marking
+began (read-only space) and is in no pool slot and not processed; or it is marked and sits in EXACTLY ONE
+pool slot (`poolCount` = occurrences in the injector + every worker's local segment + deque + hand) and is
+not processed; or it is marked, in no pool slot, and processed exactly once.  So pools never hold
+duplicates, a stolen batch is never also kept by the victim, and nothing marked is lost. -/
+theorem pool_holds_marked_unprocessed (hr : Reach h n s) (z : Obj) :
+    (z ∉ s.marked ∧ poolCount s z = 0 ∧ s.log.count z = 0) ∨
+    (z ∈ s.marked ∧ z ∈ h.pre ∧ poolCount s z = 0 ∧ s.log.count z = 0) ∨
+    (z ∈ s.marked ∧ z ∉ h.pre ∧ poolCount s z = 1 ∧ s.log.count z = 0) ∨
+    (z ∈ s.marked ∧ z ∉ h.pre ∧ poolCount s z = 0 ∧ s.log.count z = 1) := by
+  have h1 := hr.inv.place z
+  by_cases hm : z ∈ s.marked
+  · rw [ind_true hm] at h1
+    by_cases hp : z ∈ h.pre
+    · rw [ind_true hp] at h1
+      exact Or.inr (Or.inl ⟨hm, hp, by omega, by omega⟩)
+    · rw [ind_false hp] at h1
+      by_cases hc : poolCount s z = 0
+      · exact Or.inr (Or.inr (Or.inr ⟨hm, hp, hc, by omega⟩))
+      · exact Or.inr (Or.inr (Or.inl ⟨hm, hp, by omega, by omega⟩))
+  · rw [ind_false hm] at h1
+    exact Or.inl ⟨hm, by omega, by omega⟩
+
+/-- Only reachable objects are processed (and only reachable or pre-marked ones are ever marked). -/
+theorem processed_only_reachable (hr : Reach h n s) :
+    (∀ x, x ∈ s.log → Reachable h x) ∧ (∀ x, x ∈ s.marked → x ∈ h.pre ∨ Reachable h x) :=
+  ⟨fun _ hx => hr.inv.log_reachable hx, hr.inv.reach⟩
+
+/-- "Every reachable object is processed exactly once": in any reachable state in which the root loop is
+over, all pools are empty and no worker holds an object (`quiescent`), the processed log contains every
+object reachable from the roots exactly once and nothing else, and the mark bits are set exactly on the
+pre-marked and the reachable objects. -/
+theorem marking_complete (hr : Reach h n s) (q : quiescent s) (x : Obj) :
+    (Reachable h x → s.log.count x = 1) ∧ (¬ Reachable h x → s.log.count x = 0) ∧
+    (x ∈ s.marked ↔ x ∈ h.pre ∨ Reachable h x) := by
+  have i := hr.inv
+  have nd := List.nodup_iff_count.mp (each_object_processed_at_most_once hr) x
+  refine ⟨fun hx => ?_, fun hx => ?_, ⟨i.reach x, ?_⟩⟩
+  · have := List.count_pos_iff.mpr (i.complete q hx); omega
+  · rcases Nat.eq_zero_or_pos (s.log.count x) with h0 | h0
+    · exact h0
+    · exact absurd (i.log_reachable (List.count_pos_iff.mp h0)) hx
+  · rintro (hp | hx)
+    · have h1 := i.place x
+      rw [ind_true hp] at h1
+      exact ind_pos.mp (by omega)
+    · exact (i.log_marked (i.complete q hx)).1
+
+/-- How the two halves of C12 fit: the abstract pool of the termination model (`Term/Model.lean`) read as
+the sizes of this model's pools.  `shared` is the length of the injector, `own w` the length of worker
+`w`'s local segment plus deque, and a worker that is not at `pop()` (it scans an object, holds a freshly
+marked one, or is inside `defensive_push`) is in the worker loop / `wake_up` of the termination model. -/
+structure Linked (m : State) (t : Dora.Term.State) : Prop where
+  rootsDone : m.rootsLeft = []
+  shared : t.shared = m.inj.length
+  own : ∀ (w : Nat) (me : WState), m.ws[w]? = some me → t.own[w]? = some (me.loc.length + me.deq.length)
+  busy : ∀ (w : Nat) (me : WState), m.ws[w]? = some me → me.hand ≠ Hand.idle →
+    ∃ pc, t.pcs[w]? = some pc ∧ Dora.Term.isActive pc = true
+
+/-- The hypothesis of `marking_complete` is what `safe_termination` delivers: if in the termination model
+some worker's `try_terminate` has returned `true`, and that model's pool counters are the sizes of the
+marking model's pools (`Linked`), then the marking state is quiescent. -/
+theorem quiescent_of_safe_termination {m : State} {t : Dora.Term.State} {sh : Nat} {own : List Nat}
+    (hn : 0 < n) (ho : own.length = n) (ht : Dora.Term.Reach n sh own t) (l : Linked m t)
+    (hd : ∃ u : Nat, t.pcs[u]? = some Dora.Term.PC.done) : quiescent m := by
+  obtain ⟨_, hsh, hown, hpc⟩ := Dora.Term.C12.safe_termination hn ho ht hd
+  refine ⟨l.rootsDone, List.eq_nil_of_length_eq_zero (by rw [← l.shared]; exact hsh), ?_⟩
+  intro me hme
+  obtain ⟨w, hw⟩ := List.mem_iff_getElem?.mp hme
+  have h0 := hown w _ (l.own w me hw)
+  refine ⟨List.eq_nil_of_length_eq_zero (by omega), List.eq_nil_of_length_eq_zero (by omega), ?_⟩
+  apply Classical.byContradiction
+  intro hne
+  obtain ⟨pc, hp, ha⟩ := l.busy w me hw hne
+  have := (hpc w pc hp).2
+  rw [this] at ha; simp at ha
+
+/-- Both halves together: when the termination detector lets a worker leave (`try_terminate` returned
+`true`), every reachable object has been processed exactly once and no other object has been processed.
+(`Linked` is an assumption here: that the counters of the termination model are this model's pool sizes is
+stated, not derived from a product of the two transition systems.) -/
+theorem every_reachable_object_processed_exactly_once_at_termination
+    {m : State} {t : Dora.Term.State} {sh : Nat} {own : List Nat}
+    (hn : 0 < n) (ho : own.length = n) (hm : Reach h n m) (ht : Dora.Term.Reach n sh own t) (l : Linked m t)
+    (hd : ∃ u : Nat, t.pcs[u]? = some Dora.Term.PC.done) (x : Obj) :
+    (Reachable h x → m.log.count x = 1) ∧ (¬ Reachable h x → m.log.count x = 0) :=
+  let r := marking_complete hm (quiescent_of_safe_termination hn ho ht l hd) x
+  ⟨r.1, r.2.1⟩
+
+/-! ## non-vacuity: a graph with a cycle (1 ↔ 2), sharing (3 is a field of 1 and of 2, 1 is a root twice),
+a pre-marked object (5), an unreachable object (9 → 1); two workers; worker 1 steals from worker 0's deque
+and loses the race for object 3 -/
+
+def demoHeap : Heap :=
+  { succ := fun x => match x with
+      | 1 => [2, 3] | 2 => [3, 1] | 3 => [4, 5] | 9 => [1] | _ => []
+    roots := [1, 2, 1]
+    pre := [5] }
+
+def demoTrace : List Event := [
+  .root true, .root true, .root false,                 -- 1 and 2 pushed to the injector; second root slot of 1 loses
+  .worker 0 (.stealInj 1 [2]),                         -- worker 0 gets 1, the batch [2] lands in its deque
+  .worker 1 (.steal 0 2 []),                           -- worker 1 steals 2 from worker 0's deque
+  .worker 0 (.trace false),                            -- 1.f0 = 2: already marked
+  .worker 0 (.trace true),                             -- 1.f1 = 3: worker 0 wins the mark
+  .worker 1 (.trace false),                            -- 2.f0 = 3: worker 1 loses
+  .worker 1 (.trace false),                            -- 2.f1 = 1 (cycle): already marked
+  .worker 0 .pushLocal, .worker 0 .scanEnd, .worker 1 .scanEnd,
+  .worker 0 .popLocal,                                 -- worker 0 processes 3
+  .worker 0 (.trace true), .worker 0 .pushLocal,       -- 3.f0 = 4
+  .worker 0 (.trace false),                            -- 3.f1 = 5: pre-marked (read-only space)
+  .worker 0 .scanEnd, .worker 0 .popLocal, .worker 0 .scanEnd ]
+
+/-- the run is accepted; afterwards everything is empty and 1, 2, 3, 4 have been processed once each -/
+example : (runTrace demoHeap (init demoHeap 2) demoTrace).map (fun s => (s.log, s.marked, s.inj, s.rootsLeft, s.ws))
+    = some ([4, 3, 2, 1], [4, 3, 2, 1, 5], [], [], [{ WState.init with since := 2 }, WState.init]) := by decide
+
+/-- `Reach` ∧ `quiescent` (the hypotheses of `marking_complete`) hold of the final state of that run -/
+example : ∃ s, Reach demoHeap 2 s ∧ quiescent s ∧ s.log = [4, 3, 2, 1] := by
+  cases hrun : runTrace demoHeap (init demoHeap 2) demoTrace with
+  | none => exact absurd hrun (by decide)
+  | some s =>
+    have : (runTrace demoHeap (init demoHeap 2) demoTrace).map
+        (fun s => (s.log, s.inj, s.rootsLeft, s.ws)) = some ([4, 3, 2, 1], [], [], [{ WState.init with since := 2 }, WState.init]) := by decide
+    rw [hrun] at this
+    simp at this
+    obtain ⟨h1, h2, h3, h4⟩ := this
+    refine ⟨s, Reach.init.run _ _ hrun, ⟨h3, h2, ?_⟩, h1⟩
+    intro m hm
+    rw [h4] at hm
+    simp at hm
+    rcases hm with rfl | rfl <;> simp [WState.init]
+
+/-- a reachable state in the middle of the run: object 2 sits in exactly one pool slot (worker 0's deque)
+after the batch steal — third disjunct of `pool_holds_marked_unprocessed` -/
+example : ∃ s, Reach demoHeap 2 s ∧ 2 ∈ s.marked ∧ poolCount s 2 = 1 ∧ s.log.count 2 = 0 := by
+  cases hrun : runTrace demoHeap (init demoHeap 2) (demoTrace.take 4) with
+  | none => exact absurd hrun (by decide)
+  | some s =>
+    have : (runTrace demoHeap (init demoHeap 2) (demoTrace.take 4)).map
+        (fun s => (decide (2 ∈ s.marked), poolCount s 2, s.log.count 2)) = some (true, 1, 0) := by decide
+    rw [hrun] at this
+    simp at this
+    exact ⟨s, Reach.init.run _ _ hrun, this.1, this.2.1, this.2.2⟩
+
+/-- `Reachable` is inhabited and not everything: 4 is reachable (root 1 → 3 → 4); 5 (pre-marked) and 9 are not -/
+example : Reachable demoHeap 4 :=
+  .succ (.succ (.root (r := 1) (by decide) (by decide)) (y := 3) (by decide) (by decide)) (by decide) (by decide)
+
+example : ¬ Reachable demoHeap 9 := by
+  have key : ∀ x, Reachable demoHeap x → x = 1 ∨ x = 2 ∨ x = 3 ∨ x = 4 := by
+    intro x hx
+    induction hx with
+    | root hr _ => simp [demoHeap] at hr; rcases hr with rfl | rfl | rfl <;> simp
+    | succ _ hy hp ih =>
+      rcases ih with rfl | rfl | rfl | rfl <;> simp [demoHeap] at hy hp
+      · rcases hy with rfl | rfl <;> simp
+      · rcases hy with rfl | rfl <;> simp
+      · rcases hy with rfl | rfl <;> simp_all
+  intro h9
+  have := key 9 h9
+  simp at this
+
+/-- `Linked` with a terminated state of the termination model is satisfiable: the final state of the run
+above against the final state of `Dora.Term.C12.demoTrace` (both workers `done`, all counters 0) -/
+example : ∃ (m : State) (t : Dora.Term.State), Reach demoHeap 2 m ∧ Dora.Term.Reach 2 0 [0, 1] t ∧ Linked m t ∧
+    ∃ u : Nat, t.pcs[u]? = some Dora.Term.PC.done := by
+  cases hrun : runTrace demoHeap (init demoHeap 2) demoTrace with
+  | none => exact absurd hrun (by decide)
+  | some m =>
+    cases hrun2 : Dora.Term.runTrace (Dora.Term.init 2 0 [0, 1]) Dora.Term.C12.demoTrace with
+    | none => exact absurd hrun2 (by decide)
+    | some t =>
+      have e1 : (runTrace demoHeap (init demoHeap 2) demoTrace).map
+          (fun s => (s.inj, s.rootsLeft, s.ws)) = some ([], [], [{ WState.init with since := 2 }, WState.init]) := by decide
+      have e2 : (Dora.Term.runTrace (Dora.Term.init 2 0 [0, 1]) Dora.Term.C12.demoTrace).map
+          (fun s => (s.pcs, s.shared, s.own)) = some ([.done, .done], 0, [0, 0]) := by decide
+      rw [hrun] at e1; rw [hrun2] at e2
+      simp at e1 e2
+      obtain ⟨a1, a2, a3⟩ := e1
+      obtain ⟨b1, b2, b3⟩ := e2
+      refine ⟨m, t, Reach.init.run _ _ hrun, Dora.Term.Reach.init.run _ _ hrun2, ?_, 0, by simp [b1]⟩
+      refine ⟨a2, by simp [a1, b2], ?_, ?_⟩
+      · intro w me hw
+        rw [a3] at hw; rw [b3]
+        match w with
+        | 0 => simp at hw; subst hw; simp [WState.init]
+        | 1 => simp at hw; subst hw; simp [WState.init]
+        | k + 2 => simp at hw
+      · intro w me hw hne
+        rw [a3] at hw
+        match w with
+        | 0 => simp at hw; subst hw; simp [WState.init] at hne
+        | 1 => simp at hw; subst hw; simp [WState.init] at hne
+        | k + 2 => simp at hw
+
+end Dora.Mark.C12
